@@ -167,10 +167,11 @@ func (vfs *MemFS) createRootNode() *dirNode {
 
 // createDir creates a new directory.
 func (vfs *MemFS) createDir(parent *dirNode, name string, perm fs.FileMode) *dirNode {
+	// As mkdir(2), only the permission bits and the sticky bit of perm are used.
 	child := &dirNode{
 		baseNode: baseNode{
 			mtime: time.Now().UnixNano(),
-			mode:  vfs.dirMode | (perm & avfs.FileModeMask &^ vfs.UMask()),
+			mode:  vfs.dirMode | (perm & (fs.ModePerm | fs.ModeSticky) &^ vfs.UMask()),
 			uid:   vfs.User().Uid(),
 			gid:   vfs.User().Gid(),
 		},
